@@ -3,9 +3,9 @@
 # check against a scratch worktree of /repo HEAD with the change applied; one line per seed in seeded/RESULTS.tsv.
 # Uses the ./check beside this script (so it works from a `vp run` snapshot) and never touches /repo's working tree.
 cd "$(dirname "$0")/.." || exit 2
-V=$(pwd); OUT=$V/seeded/RESULTS.tsv; : > $OUT
+V=$(pwd); OUT=${OUT:-$V/seeded/RESULTS.tsv}; : > $OUT
 PROPS=${@:-$(ls seeded | grep '^C')}
-for P in $PROPS; do for SD in seeded/$P/seed*; do S=$(basename $SD)
+for P in $PROPS; do for SD in seeded/$P/${SEEDS:-seed*}; do S=$(basename $SD)
   WT=$(mktemp -d /tmp/seedrun-XXXX); rmdir $WT
   git -C /repo worktree add -q --detach $WT HEAD || continue
   PATCH=$V/$SD/patch.diff; PORT=$V/docs/seed-ports/$P-$S-on-fixes.diff
